@@ -32,6 +32,7 @@ func checkC20(c *Ctx) {
 	c20ExampleCollector(c)
 	c20NoShadowedLocals(c)
 	c20MockOnlyWithServices(c)
+	c20MapKeyLiterals(c)
 	r.Rule("R20d", "example values and table keys are printed quoted", 1)
 	r.Rule("R20e", "example table keys and selector lookup keys have the same format", 1)
 	r.Rule("R20f", "file-independent package-level names in per-file units", 1)
@@ -527,4 +528,61 @@ func c20MockOnlyWithServices(c *Ctx) {
 	}
 	r.CheckD(bad == "", "R20m", "go-http generateFile creates *_http_mock.pb.go only when the file declares a service", pos,
 		"with the mock option on, generateFile creates the mock unit for a file without services (decisions {"+bad+"}): the unit's context/proto imports are unused and its package-level helpers (fieldExamples, select*Example, init) are declared again by the service file's mock unit of the same Go package — the package does not build", map[string]any{"variants_without_services": nNoSvc, "variants_with_mock": nMock})
+}
+
+// c20MapKeyLiterals — R20n. The mock indexes a map-typed response field with a sample key literal chosen by the key's kind.
+// protobuf admits string, bool and every integer kind as map key. The chooser is interpreted on a concrete key field of
+// each kind and the literal must be a constant of the key's Go type (go/types on `var m map[K]int; _ = m[<literal>]`).
+func c20MapKeyLiterals(c *Ctx) {
+	r := c.R
+	r.Rule("R20n", "the sample key the mock uses to fill a map field is a constant of the map's key type, for every key kind protobuf admits (string, bool, all integer kinds)", 12)
+	fn := c.P.Func(pkgHTTP, "Generator.getSampleMapKey")
+	if fn == nil {
+		r.Unres("R20n", "httpgen getSampleMapKey", "", "not found")
+		return
+	}
+	pos := c.P.Pos(c.P.Decls[fn].Pos())
+	prev := c.W.Concrete
+	c.W.Concrete = true
+	defer func() { c.W.Concrete = prev }()
+	pname := ""
+	for _, f := range c.P.Decls[fn].Type.Params.List {
+		for _, n := range f.Names {
+			pname = n.Name
+		}
+	}
+	goKey := map[string]string{"string": "string", "bool": "bool", "int32": "int32", "sint32": "int32", "sfixed32": "int32", "int64": "int64", "sint64": "int64", "sfixed64": "int64",
+		"uint32": "uint32", "fixed32": "uint32", "uint64": "uint64", "fixed64": "uint64"}
+	for _, kind := range sortedKeys(goKey) {
+		run := c.W.NewRun(map[string]int{}, false)
+		run.InlineAll, run.FollowSlices = true, true
+		run.CallHook = c.cdescHook
+		run.StartArgs(fn, map[string]Val{pname: fld("key", kind).val()})
+		key := "mock map key literal for key kind " + kind
+		sv, ok := run.Result.(VStr)
+		lit, isConst := "", false
+		if ok {
+			lit, isConst = sv.isConst()
+		}
+		if !ok || !isConst || len(run.Used) > 0 {
+			r.Undec("R20n", key, pos, fmt.Sprintf("not evaluated to a constant (result %T, open decisions %v)", run.Result, usedKeys(run)))
+			continue
+		}
+		src := "package w\nvar m map[" + goKey[kind] + "]int\nvar _ = m[" + lit + "]\n"
+		fset := token.NewFileSet()
+		f, err := parser.ParseFile(fset, "w.go", src, 0)
+		msg := ""
+		if err != nil {
+			msg = err.Error()
+		} else {
+			conf := types.Config{Error: func(e error) {
+				if msg == "" {
+					msg = e.Error()
+				}
+			}}
+			conf.Check("w", fset, []*ast.File{f}, nil)
+		}
+		r.CheckD(msg == "", "R20n", key, pos,
+			fmt.Sprintf("for a map<%s, …> response field the mock emits `resp.F[%s] = …`: %s — the package with the mock file does not build", kind, lit, msg), map[string]any{"literal": lit})
+	}
 }
